@@ -16,6 +16,7 @@ import (
 	"golang.org/x/crypto/sha3"
 
 	"github.com/icon-project/goloop/common"
+	"github.com/icon-project/goloop/common/intconv"
 	"github.com/icon-project/goloop/module"
 	ss "github.com/icon-project/goloop/service/state"
 )
@@ -94,6 +95,9 @@ type Account struct {
 	Owner      *common.Address
 	State      int
 	Cur, Next  *Contract
+	// Deposit is the remaining amount of the account's (term-less, "V2")
+	// fee-sharing deposit; nil = no deposit (a deposit of 0 is a deposit).
+	Deposit *big.Int
 	// Recipe is the sequence of contract-related operations that produced
 	// IsContract/Owner(initial)/Cur/Next; replaying it on a fresh account
 	// reproduces these fields (used to reach the same content another way).
@@ -113,6 +117,9 @@ func (a *Account) Clone() *Account {
 		n.Storage[k] = v
 	}
 	n.Recipe = append([]Op(nil), a.Recipe...)
+	if a.Deposit != nil {
+		n.Deposit = new(big.Int).Set(a.Deposit)
+	}
 	return n
 }
 
@@ -145,6 +152,9 @@ func (a *Account) Enc(sb *strings.Builder) {
 	a.Cur.enc(sb)
 	sb.WriteString(",next=")
 	a.Next.enc(sb)
+	if a.Deposit != nil {
+		sb.WriteString(",dep=" + a.Deposit.String())
+	}
 	sb.WriteString(";")
 }
 
@@ -206,13 +216,16 @@ const (
 	OpReject
 	OpActivate
 	OpSetCode
-	OpSnapshot // take a world snapshot
-	OpReset    // reset to snapshot number Snap
+	OpAddDeposit // AddDeposit(Bal)
+	OpWithdraw   // WithdrawDeposit(all if B, else Bal)
+	OpPaySteps   // PaySteps(Bal steps)
+	OpSnapshot   // take a world snapshot
+	OpReset      // reset to snapshot number Snap
 	opKinds
 )
 
 var opNames = []string{"SetBalance", "SetValue", "DeleteValue", "InitContract", "SetOwner", "SetBlock", "SetDisable",
-	"SetSysDeposit", "Deploy", "Accept", "Reject", "Activate", "SetCode", "Snapshot", "Reset"}
+	"SetSysDeposit", "Deploy", "Accept", "Reject", "Activate", "SetCode", "AddDeposit", "Withdraw", "PaySteps", "Snapshot", "Reset"}
 
 // Op is one operation with concrete arguments.
 type Op struct {
@@ -251,6 +264,13 @@ func (o Op) String() string {
 		return fmt.Sprintf("Activate(a%d)", o.Acc)
 	case OpSetCode:
 		return fmt.Sprintf("SetCode(a%d,%x)", o.Acc, o.Code)
+	case OpAddDeposit, OpPaySteps:
+		return fmt.Sprintf("%s(a%d,%s)", opNames[o.Kind], o.Acc, o.Bal)
+	case OpWithdraw:
+		if o.B {
+			return fmt.Sprintf("Withdraw(a%d,all)", o.Acc)
+		}
+		return fmt.Sprintf("Withdraw(a%d,%s)", o.Acc, o.Bal)
 	case OpSnapshot:
 		return "Snapshot"
 	case OpReset:
@@ -264,13 +284,16 @@ type Result struct {
 	Old []byte // returned previous value (SetValue/DeleteValue/Deploy)
 	OK  bool   // InitContract result
 	Err bool   // the call returned an error
+	Num string // numeric return values (WithdrawDeposit amount/fee, PaySteps paid/byDeposit)
 }
 
-func (r Result) String() string { return fmt.Sprintf("{old=%x ok=%v err=%v}", r.Old, r.OK, r.Err) }
+func (r Result) String() string {
+	return fmt.Sprintf("{old=%x ok=%v err=%v num=%s}", r.Old, r.OK, r.Err, r.Num)
+}
 
 // Equal compares results (nil and empty byte strings are the same).
 func (r Result) Equal(o Result) bool {
-	return bytes.Equal(r.Old, o.Old) && r.OK == o.OK && r.Err == o.Err
+	return bytes.Equal(r.Old, o.Old) && r.OK == o.OK && r.Err == o.Err && r.Num == o.Num
 }
 
 func sum256(b []byte) []byte {
@@ -398,6 +421,37 @@ func (w *World) Apply(o Op) Result {
 		a.Cur.Code = o.Code
 		a.Cur.CodeHash = sum256(o.Code)
 		changed = true
+	case OpAddDeposit:
+		if a.Deposit == nil {
+			a.Deposit = new(big.Int).Set(o.Bal)
+		} else {
+			a.Deposit = new(big.Int).Add(a.Deposit, o.Bal)
+		}
+	case OpWithdraw:
+		switch {
+		case a.Deposit == nil:
+			res.Err = true
+		case o.B:
+			res.Num = a.Deposit.String() + "/0"
+			a.Deposit = nil
+		case a.Deposit.Cmp(o.Bal) < 0:
+			res.Err = true
+		default:
+			res.Num = o.Bal.String() + "/0"
+			a.Deposit = new(big.Int).Sub(a.Deposit, o.Bal)
+		}
+	case OpPaySteps:
+		if a.Deposit == nil {
+			res.Num = "nil/nil"
+			break
+		}
+		payable := new(big.Int).Div(a.Deposit, StepPrice)
+		by := o.Bal
+		if payable.Cmp(o.Bal) < 0 {
+			by = payable
+		}
+		res.Num = by.String() + "/" + by.String()
+		a.Deposit = new(big.Int).Sub(a.Deposit, new(big.Int).Mul(by, StepPrice))
 	default:
 		panic("not an account op")
 	}
@@ -446,11 +500,56 @@ func ApplyReal(ws ss.WorldState, o Op) Result {
 		} else {
 			res.Err = c.SetCode(o.Code) != nil
 		}
+	case OpAddDeposit:
+		res.Err = as.AddDeposit(Ctx{}, new(big.Int).Set(o.Bal)) != nil
+	case OpWithdraw:
+		var v *big.Int
+		if !o.B {
+			v = new(big.Int).Set(o.Bal)
+		}
+		amount, fee, err := as.WithdrawDeposit(Ctx{}, nil, v)
+		if res.Err = err != nil; !res.Err {
+			res.Num = fmt.Sprint(amount) + "/" + fmt.Sprint(fee)
+		}
+	case OpPaySteps:
+		paid, by, err := as.PaySteps(Ctx{}, new(big.Int).Set(o.Bal))
+		res.Err = err != nil
+		res.Num = numOrNil(paid) + "/" + numOrNil(by)
 	default:
 		panic("not an account op")
 	}
 	return res
 }
+
+func numOrNil(v *big.Int) string {
+	if v == nil {
+		return "nil"
+	}
+	return v.String()
+}
+
+// StepPrice is the step price of the harness's deposit/pay context.
+var StepPrice = big.NewInt(100)
+
+// Ctx implements state.DepositContext (term 0 = "V2" deposits) and
+// state.PayContext (fee sharing enabled) with fixed parameters.
+type Ctx struct{ Limit *big.Int }
+
+func (Ctx) StepPrice() *big.Int        { return StepPrice }
+func (Ctx) BlockHeight() int64         { return 10 }
+func (Ctx) DepositTerm() int64         { return 0 }
+func (Ctx) DepositIssueRate() *big.Int { return big.NewInt(8) }
+func (Ctx) TransactionID() []byte      { return []byte{1} }
+func (Ctx) FeeSharingEnabled() bool    { return true }
+func (c Ctx) FeeLimit() *big.Int {
+	if c.Limit == nil {
+		return new(big.Int)
+	}
+	return c.Limit
+}
+
+var feeLimits = []*big.Int{big.NewInt(0), big.NewInt(1), big.NewInt(2500), big.NewInt(100000)}
+var depositAmounts = []*big.Int{big.NewInt(0), big.NewInt(99), big.NewInt(100), big.NewInt(2500), big.NewInt(50000), big.NewInt(100000)}
 
 var balances = []*big.Int{
 	big.NewInt(0), big.NewInt(0), big.NewInt(1), big.NewInt(2), big.NewInt(127), big.NewInt(128), big.NewInt(255), big.NewInt(256),
@@ -561,8 +660,26 @@ func GenOp(r *rand.Rand, w *World) Op {
 			}
 			o.Audit = audits[r.Intn(len(audits))]
 		}
-		k := r.Intn(20)
+		k := r.Intn(28)
 		switch {
+		case k >= 20 && !a.IsContract:
+			// deposits only on contract accounts (IsEmpty ignores deposits, and
+			// goloop only ever deposits to contracts)
+			o.Kind, o.Owner = OpInitContract, r.Intn(len(Owners))
+		case k >= 20 && (a.Deposit == nil || k <= 21):
+			o.Kind, o.Bal = OpAddDeposit, depositAmounts[r.Intn(len(depositAmounts))]
+		case k >= 20 && k <= 24:
+			o.Kind, o.Bal = OpPaySteps, big.NewInt(int64(1+r.Intn(40)))
+			if r.Intn(4) == 0 {
+				o.Bal = big.NewInt(int64(1 + r.Intn(2000)))
+			}
+		case k == 25:
+			o.Kind, o.B = OpWithdraw, true
+		case k >= 26:
+			o.Kind, o.Bal = OpWithdraw, depositAmounts[r.Intn(len(depositAmounts))]
+			if r.Intn(3) == 0 {
+				o.Bal = new(big.Int).Set(a.Deposit) // exactly the rest: leaves a deposit of 0
+			}
 		case k == 0:
 			o.Kind, o.Owner = OpInitContract, r.Intn(len(Owners))
 		case k <= 2:
@@ -706,6 +823,38 @@ func Observe(acc int, v AcctView, cur, next contractView, m *Account, withCode b
 			out = append(out, Diff{"storage.error", acc, hex.EncodeToString([]byte(want)), fmt.Sprintf("key %x: %v", k, err)})
 		} else if !bytes.Equal(got, []byte(want)) {
 			out = append(out, Diff{"storage", acc, fmt.Sprintf("%x=%x", k, want), fmt.Sprintf("%x=%x", k, got)})
+		}
+	}
+	// deposits: GetDepositInfo, CheckDeposit, CanAcceptTx
+	info, err := v.GetDepositInfo(Ctx{}, module.JSONVersion3)
+	switch {
+	case err != nil:
+		out = append(out, Diff{"deposit.error", acc, "", err.Error()})
+	case (info == nil) != (m.Deposit == nil):
+		out = append(out, Diff{"deposit.presence", acc, fmt.Sprint(m.Deposit != nil), fmt.Sprint(info != nil)})
+	case info != nil:
+		var got big.Int
+		as, _ := info["availableDeposit"].(string)
+		if e := intconv.ParseBigInt(&got, as); e != nil || got.Cmp(m.Deposit) != 0 {
+			out = append(out, Diff{"deposit.available", acc, m.Deposit.String(), as})
+		}
+		if l, _ := info["deposits"].([]interface{}); len(l) != 1 {
+			out = append(out, Diff{"deposit.count", acc, "1", fmt.Sprint(len(l))})
+		} else if dm, _ := l[0].(map[string]interface{}); dm != nil {
+			rs, _ := dm["depositRemain"].(string)
+			if e := intconv.ParseBigInt(&got, rs); e != nil || got.Cmp(m.Deposit) != 0 {
+				out = append(out, Diff{"deposit.remain", acc, m.Deposit.String(), rs})
+			}
+		}
+	}
+	for _, lim := range feeLimits {
+		wantPay := m.Deposit == nil || m.Deposit.Cmp(lim) >= 0
+		if got := v.CheckDeposit(Ctx{Limit: lim}); got != wantPay {
+			out = append(out, Diff{"deposit.checkDeposit", acc, fmt.Sprintf("limit %s: %v", lim, wantPay), fmt.Sprint(got)})
+		}
+		wantAccept := wantPay && !(m.IsContract && m.State&(ss.ASDisabled|ss.ASBlocked) != 0)
+		if got := v.CanAcceptTx(Ctx{Limit: lim}); got != wantAccept {
+			out = append(out, Diff{"deposit.canAcceptTx", acc, fmt.Sprintf("limit %s: %v", lim, wantAccept), fmt.Sprint(got)})
 		}
 	}
 	out = cmpContract(acc, "cur", cur, m.Cur, withCode, out)
